@@ -70,6 +70,8 @@ pub struct Gen {
     script: std::collections::VecDeque<Op>,
     pending_ask: Option<(AskSpec, String, u128, String)>,
     pending_goods_nft: Option<(String, String)>,
+    seen_listing_ids: std::collections::BTreeSet<u64>,
+    seen_bucket_ids: std::collections::BTreeSet<u64>,
     /// generator-side fault / schedule events (duplicate delivery, foreign signer, boundary clock …)
     pub counters: std::collections::BTreeMap<&'static str, u64>,
     sloppy_sent: Vec<(String, String, bool, u64)>,
@@ -213,6 +215,8 @@ impl Gen {
             script: Default::default(),
             pending_ask: None,
             pending_goods_nft: None,
+            seen_listing_ids: Default::default(),
+            seen_bucket_ids: Default::default(),
             counters: Default::default(),
             sloppy_sent: vec![],
         }
@@ -289,19 +293,21 @@ impl Gen {
 
     fn fresh_listing_id(&mut self, o: &Obs) -> u64 {
         let mut id = self.next_id_hint.max(1);
-        while o.listing_used.contains(&id) {
+        while self.seen_listing_ids.contains(&id) || o.listing_by_id(id).is_some() {
             id += 1;
         }
         id
     }
     fn fresh_bucket_id(&mut self, o: &Obs) -> u64 {
         let mut id = self.next_id_hint.max(1);
-        while o.bucket_used.contains(&id) {
+        while self.seen_bucket_ids.contains(&id) || o.bucket_by_id(id).is_some() {
             id += 1;
         }
         id
     }
 
+    /// ids are remembered by the generator itself (every id it ever put into a creation message), not read
+    /// from the contract's tombstone maps: the check must not depend on how the contract remembers them
     fn some_id(&mut self, o: &Obs, listing: bool) -> u64 {
         let bad_rate = if matches!(self.mode, Mode::BadInput) { 4 } else { 25 };
         if self.rng.chance(1, bad_rate) {
@@ -309,8 +315,25 @@ impl Gen {
         }
         if self.rng.chance(1, 8) {
             // deliberately an id that was used before (live or dead)
-            let used: Vec<u64> = if listing { o.listing_used.iter().cloned().collect() } else { o.bucket_used.iter().cloned().collect() };
+            let used: Vec<u64> = if listing { self.seen_listing_ids.iter().cloned().collect() } else { self.seen_bucket_ids.iter().cloned().collect() };
             if let Some(x) = self.rng.pick_opt(&used) {
+                return *x;
+            }
+        }
+        let family_rate = if matches!(self.mode, Mode::BadInput) { 5 } else { 30 };
+        if self.rng.chance(1, family_rate) {
+            // ids that agree in their low 8 / 16 / 32 bits (a narrower or sharded id registry would confuse them)
+            let r = self.rng.range(1, 3);
+            let k = self.rng.range(0, 5);
+            let shift = *self.rng.pick(&[8u32, 16, 32, 32, 32]);
+            return r + (k << shift);
+        }
+        if self.rng.chance(1, 6) {
+            // a small id that is not the next one: gaps that are filled later, descending runs
+            let pool: Vec<u64> = (1..=14u64)
+                .filter(|i| if listing { !self.seen_listing_ids.contains(i) } else { !self.seen_bucket_ids.contains(i) })
+                .collect();
+            if let Some(x) = self.rng.pick_opt(&pool) {
                 return *x;
             }
         }
@@ -1479,12 +1502,28 @@ impl Gen {
     // ------------------------------------------------------------------ the scheduler
 
     pub fn next(&mut self, sim: &Sim, o: &Obs) -> Op {
+        let op = self.next_inner(sim, o);
+        if let Some(a) = crate::spec::classify(&op, &sim.names) {
+            match a.act {
+                crate::spec::Act::CreateListing { id, .. } => {
+                    self.seen_listing_ids.insert(id);
+                }
+                crate::spec::Act::CreateBucket { id, .. } => {
+                    self.seen_bucket_ids.insert(id);
+                }
+                _ => {}
+            }
+        }
+        op
+    }
+
+    fn next_inner(&mut self, sim: &Sim, o: &Obs) -> Op {
         let names = &sim.names;
         if let Some(op) = self.script.pop_front() {
             if let Op::Probe { kind, .. } = &op {
                 if kind == "__resolve_user2_tokens" {
                     self.resolve_pending_ask(o, names);
-                    return self.next(sim, o);
+                    return self.next_inner(sim, o);
                 }
             }
             return op;
